@@ -73,6 +73,9 @@ func genModelGlyph(rng *rand.Rand, name string, lay *ref.WLayout, feat map[strin
 		g.Cmds = append(g.Cmds, ref.WCmd{Op: 'M', Args: []int64{nx, ny}})
 		x, y = nx, ny
 		ns := 1 + rng.IntN(6)
+		if modelSegBoost {
+			ns = 30 + rng.IntN(60)
+		}
 		for s := 0; s < ns; s++ {
 			switch rng.IntN(9) {
 			case 0:
@@ -215,6 +218,10 @@ func genModelFont(rng *rand.Rand) *modelFont { return genModelFontOpt(rng, false
 // huge/tiny numbers, real-valued Private entries, BlueScale next to its default.
 var wildModel = false
 
+// modelSegBoost makes genModelGlyph write long contours (large fonts: the
+// encrypted section exceeds 64 KiB, the boundary of the PFB length bytes).
+var modelSegBoost = false
+
 // genModelFontOpt: with nested set, composites get StandardEncoding names and
 // a composite of a composite is added (outside C06's domain; used where only
 // determinism or robustness matter).
@@ -233,6 +240,12 @@ func genModelFontOpt(rng *rand.Rand, nested bool) *modelFont {
 		General:   []int{0, 0, 30, 100}[rng.IntN(4)],
 	}
 	mf.lay = lay
+	big := rng.IntN(60) == 0
+	if big {
+		modelSegBoost = true
+		defer func() { modelSegBoost = false }()
+		mf.feat["large font (sections beyond 64 KiB)"] = true
+	}
 	w := &ref.WFont{FontName: "Model-" + strconv.Itoa(rng.IntN(1000)), Info: map[string]string{}, Private: map[string]string{}}
 	mf.w = w
 	want := &type1.Font{FontInfo: &type1.FontInfo{}, Private: &type1.PrivateDict{BlueScale: 0.039625, BlueShift: 7, BlueFuzz: 1}, Glyphs: map[string]*type1.Glyph{}}
@@ -253,6 +266,11 @@ func genModelFontOpt(rng *rand.Rand, nested bool) *modelFont {
 	infoStr("version", &want.FontInfo.Version)
 	infoStr("Notice", &want.FontInfo.Notice)
 	infoStr("Copyright", &want.FontInfo.Copyright)
+	if big && rng.IntN(2) == 0 {
+		// the clear-text part exceeds 64 KiB as well
+		long := strings.Repeat("All rights reserved. ", 3500)
+		w.Info["Copyright"], want.FontInfo.Copyright = long, long
+	}
 	infoStr("FullName", &want.FontInfo.FullName)
 	infoStr("FamilyName", &want.FontInfo.FamilyName)
 	infoStr("Weight", &want.FontInfo.Weight)
@@ -372,9 +390,12 @@ func genModelFontOpt(rng *rand.Rand, nested bool) *modelFont {
 	if rng.IntN(20) == 0 {
 		n = 40 + rng.IntN(20)
 	}
+	if big {
+		n = 200 + rng.IntN(200)
+	}
 	for i := 0; i < n; i++ {
 		name := stdNames[rng.IntN(len(stdNames))]
-		if rng.IntN(5) == 0 {
+		if rng.IntN(5) == 0 || big && i > 100 {
 			name = fmt.Sprintf("glyph%d", i)
 		}
 		if used[name] {
@@ -396,6 +417,9 @@ func genModelFontOpt(rng *rand.Rand, nested bool) *modelFont {
 		}
 		perm := rng.Perm(256)
 		for i, g := range w.Glyphs {
+			if i >= 256 {
+				break
+			}
 			if g.Name != ".notdef" && rng.IntN(4) > 0 {
 				w.Encoding[perm[i]] = g.Name
 			}
